@@ -192,7 +192,8 @@ def SeqSt.read (s : SeqSt) (p : Params) (evicting directed : Bool) (t : List Str
   -- the model cache after the read is the JOIN of the caches of every candidate that explains the observation
   -- (an entry is dropped only if every explanation drops it).
   let mut matched := false
-  let mut joined : Cache := s.cache
+  let mut jh : Option Head := none      -- the candidates differ from `s.cache` only in the two entries of `key`
+  let mut jb : Option Body := none
   let mut firstPred := ""
   for (eh, eb) in cands do
     if true then
@@ -210,15 +211,12 @@ def SeqSt.read (s : SeqSt) (p : Params) (evicting directed : Bool) (t : List Str
       if firstPred == "" then firstPred := s!"{headTok pred}/calls={predCalls}"
       if same && predCalls == calls then
         let c1 := r.1.2
-        if matched then
-          let j := joined
-          joined := { head := fun k => (j.head k).orElse (fun _ => c1.head k), body := fun k => (j.body k).orElse (fun _ => c1.body k) }
-          s := s.stat "ambiguous_eviction_explanations"
-        else
-          joined := c1
-          if !eh.isEmpty || !eb.isEmpty then s := s.stat "evictions_inferred"
+        if matched then s := s.stat "ambiguous_eviction_explanations"
+        else if !eh.isEmpty || !eb.isEmpty then s := s.stat "evictions_inferred"
+        jh := jh.orElse (fun _ => c1.head key)
+        jb := jb.orElse (fun _ => c1.body key)
         matched := true
-  if matched then s := { s with cache := joined }
+  if matched then s := { s with cache := (s.cache.setHead key jh).setBody key jb }
   if !matched then
     s := { s with div := s.div ++ [s!"{where_}:model={firstPred}:impl={headTok mw}/calls={calls}"] }
     -- resynchronise: forget the key
